@@ -178,6 +178,10 @@ M = [
       old="        assert!(\n            self.bits_precision() >= (rhs.as_ref().len() as u32 * Limb::BITS),\n            \"`rhs` has a larger precision than `self`\"\n        );",
       new="        debug_assert!(self.bits_precision() >= (rhs.as_ref().len() as u32 * Limb::BITS));",
       expect="c04.docpanic|uint::boxed::add::<impl uint::boxed::BoxedUint>::adc_assign"),
+ dict(name="boxed_cmp_vartime_debug_only_width", prop="C06", file="src/uint/boxed/cmp.rs",
+      old="        let mut i = max(self.limbs.len(), rhs.limbs.len()) - 1;\n        loop {\n            // TODO: investigate if directly comparing limbs is faster than performing a\n            // subtraction between limbs\n            let a = self.limbs.get(i).unwrap_or(&Limb::ZERO);\n            let b = rhs.limbs.get(i).unwrap_or(&Limb::ZERO);\n            let (val, borrow) = a.sbb(*b, Limb::ZERO);",
+      new="        debug_assert_eq!(self.limbs.len(), rhs.limbs.len());\n        let mut i = self.limbs.len() - 1;\n        loop {\n            let (val, borrow) = self.limbs[i].sbb(rhs.limbs[i], Limb::ZERO);",
+      expect="c06.dbgwidth|uint::boxed::cmp::<impl uint::boxed::BoxedUint>::cmp_vartime"),
  # --- C19
  dict(name="random_mod_core_polarity", prop="C19", file="src/uint/rand.rs",
       old="        if n.ct_lt(modulus).into() {\n            break;", new="        if !bool::from(n.ct_lt(modulus)) {\n            break;",
